@@ -285,8 +285,15 @@ fn find_output_type(item_impl: &ItemImpl) -> Result<&Type> {
     }
     bail!(_, "cannot find associate type `Output`");
 }
+/// A type that comes out of a `macro_rules!` `$t:ty` fragment is wrapped in an invisible group.
+fn ungroup(mut ty: &Type) -> &Type {
+    while let Type::Group(g) = ty {
+        ty = &g.elem;
+    }
+    ty
+}
 fn to_ref_elem(ty: &Type) -> (Type, bool) {
-    if let Type::Reference(tr) = ty {
+    if let Type::Reference(tr) = ungroup(ty) {
         if tr.lifetime.is_none() && tr.mutability.is_none() {
             return (tr.elem.as_ref().clone(), true);
         }
